@@ -13,7 +13,7 @@ use wayfind::verif::{NodeDump, PartDump};
 use wayfind::{Constraint, Router};
 
 mod cons;
-use cons::{DupU8, Even, Lower, Lower2, NoA};
+use cons::{DupU8, Even, Lower, Lower2, NoA, Uni};
 
 /// The name constraint of the OCI example, compiled from /repo's current source.
 #[path = "/repo/examples/oci/src/constraints/name.rs"]
@@ -124,6 +124,7 @@ fn register(r: &mut Router<u32>, ty: &str) -> (Result<(), ConstraintError>, &'st
         "noa" => (r.constraint::<NoA>(), NoA::NAME, std::any::type_name::<NoA>()),
         "lower2" => (r.constraint::<Lower2>(), Lower2::NAME, std::any::type_name::<Lower2>()),
         "dupu8" => (r.constraint::<DupU8>(), DupU8::NAME, std::any::type_name::<DupU8>()),
+        "uni" => (r.constraint::<Uni>(), Uni::NAME, std::any::type_name::<Uni>()),
         _ => panic!("unknown constraint type id {ty}"),
     }
 }
